@@ -654,9 +654,9 @@ Print Assumptions C05_json_provider_noting_error_with_data_refuted.
 
 (* "a run always terminates": a source that can be sought and holds no ammo (nothing, or white space only) ends the
    provider after one pass, whatever passes (0 = unlimited included) and limit say, as long as the guard is installed *)
-Theorem C05_json_provider_no_ammo_terminates : forall v passes limit nonempty fuel,
+Theorem C05_json_provider_no_ammo_terminates : forall v passes limit pend nonempty fuel,
   jv_guard v passes = true ->
-  jd_passes (S fuel) v passes limit 0 nonempty 0 0 0 = (JdNil, 0).
+  jd_passes (S fuel) v passes limit 0 pend nonempty 0 0 0 = (JdNil, 0).
 Proof. exact jd_passes_no_ammo_ends. Qed.
 Print Assumptions C05_json_provider_no_ammo_terminates.
 
@@ -665,22 +665,33 @@ Proof. reflexivity. Qed.
 Print Assumptions C05_json_provider_tree_installs_the_guard.
 
 (* the edit "install the guard only for passes > 1" refuted: passes = 0 on white space only never ends, whatever the fuel *)
-Theorem C05_json_provider_guard_only_for_several_passes_refuted : forall fuel limit pc db,
-  jd_passes fuel jd_guard_for_several_passes 0 limit 0 true pc 0 db = (JdOutOfFuel, 0).
+Theorem C05_json_provider_guard_only_for_several_passes_refuted : forall fuel limit pend pc db,
+  jd_passes fuel jd_guard_for_several_passes 0 limit 0 pend true pc 0 db = (JdOutOfFuel, 0).
 Proof. exact jd_passes_guardless_never_ends. Qed.
 Print Assumptions C05_json_provider_guard_only_for_several_passes_refuted.
 
-(* data with ammo: the guard never refuses a rewind -- `passes` passes hand out passes * a ammo, then nil *)
-Theorem C05_json_provider_passes_counted : forall v a passes n pc d db fuel,
+(* "succeeds only if every pool ran out of ammo": data with ammo on a source that reports its end on a read of its own
+   (pend = 0) -- the guard never refuses a rewind, `passes` passes hand out passes * a ammo, then nil.  This is the
+   PARTIAL form, under the explicit guard pend = 0 ... *)
+Theorem C05_json_provider_passes_counted_partial : forall v a passes n pc d db fuel,
   0 < a -> 0 < n -> pc + n = passes -> db <= d -> n <= fuel ->
-  jd_passes fuel v passes 0 a true pc d db = (JdNil, d + n * a).
+  jd_passes fuel v passes 0 a 0 true pc d db = (JdNil, d + n * a).
 Proof. exact jd_passes_counts. Qed.
-Print Assumptions C05_json_provider_passes_counted.
+Print Assumptions C05_json_provider_passes_counted_partial.
+
+(* ... the full statement (any source that can be sought) is REFUTED: a source that hands all its data out in one read
+   together with io.EOF (pend = a) is read ONCE whatever passes says (2, 3, ..., 0 = unlimited) -- the run "succeeds"
+   having shot a instead of passes * a ammo (known finding, not repaired: see design/C05.md) *)
+Theorem C05_json_provider_passes_counted_refuted : forall a passes fuel,
+  0 < a -> passes <> 1 ->
+  jd_passes (S fuel) jd_current passes 0 a a true 0 0 0 = (JdNil, a).
+Proof. intros a passes fuel Ha Hp. apply jd_passes_eof_with_data_one_pass; [exact Ha|exact Hp|reflexivity]. Qed.
+Print Assumptions C05_json_provider_passes_counted_refuted.
 
 (* with a limit the provider ends whatever passes says (also 0 = unlimited) *)
-Theorem C05_json_provider_limit_terminates : forall v a passes limit fuel pc d db,
+Theorem C05_json_provider_limit_terminates : forall v a passes limit pend fuel pc d db,
   0 < a -> 0 < limit -> limit <= d + fuel ->
-  fst (jd_passes (S fuel) v passes limit a true pc d db) = JdNil.
+  fst (jd_passes (S fuel) v passes limit a pend true pc d db) = JdNil.
 Proof. exact jd_passes_limit_ends. Qed.
 Print Assumptions C05_json_provider_limit_terminates.
 
@@ -688,9 +699,10 @@ Example C05_example_json_provider :
   jd_pass jd_tree 0 true [[JiAmmo; JiBlank]; [JiAmmo; JiBad]] false 0 = (JdFail, 2) /\
   jd_pass jd_notes_error_with_data 0 true [[JiAmmo; JiBlank]; [JiAmmo; JiBad]] false 0 = (JdNil, 2) /\
   jd_pass jd_tree 2 false [jd_items 3 1 JpBad] false 0 = (JdNil, 2) /\
-  jd_passes 5 jd_tree 0 0 0 true 0 0 0 = (JdNil, 0) /\
-  jd_passes 5 jd_guard_for_several_passes 0 0 0 true 0 0 0 = (JdOutOfFuel, 0) /\
-  jd_passes 5 jd_tree 3 0 2 true 0 0 0 = (JdNil, 6) /\
-  jd_passes 9 jd_tree 0 7 2 true 0 0 0 = (JdNil, 7) /\
+  jd_passes 5 jd_tree 0 0 0 0 true 0 0 0 = (JdNil, 0) /\
+  jd_passes 5 jd_guard_for_several_passes 0 0 0 0 true 0 0 0 = (JdOutOfFuel, 0) /\
+  jd_passes 5 jd_tree 3 0 2 0 true 0 0 0 = (JdNil, 6) /\
+  jd_passes 5 jd_tree 3 0 2 2 true 0 0 0 = (JdNil, 2) /\
+  jd_passes 9 jd_tree 0 7 2 0 true 0 0 0 = (JdNil, 7) /\
   jd_spec_delivered true 3 0 (jd_items 2 0 JpNone) = 6.
 Proof. repeat split. Qed.
